@@ -353,6 +353,13 @@ func (a Attr) UnmarshalToType(data []byte) (any, error) {
 			v = &t
 		}
 	case AttrTypeBytes:
+		if len(data) > 0 && data[0] == '[' {
+			// encoding/json also unmarshals an array of numbers into
+			// a slice of bytes, but only a base64 string is valid.
+			err = errors.New("bytes are not a base64-encoded string")
+			break
+		}
+
 		s := make([]byte, len(data))
 		err := json.Unmarshal(data, &s)
 
